@@ -272,8 +272,9 @@ impl Check for C06 {
         obs.excluded = case.excluded as u64 + case.columnar_off as u64;
         let (q, parts) = queries(case);
         let mut trig: Vec<&str> = Vec::new();
+        // (the self_join trigger was retired with the repair of the SIMD WHERE filter, 2dfbe02d)
         if has_self_join(&case.base) {
-            trig.push("self_join");
+            obs.class("self_join");
         }
         vibesql_executor::verif_hooks::set_columnar_off(case.columnar_off);
         let taken0 = vibesql_executor::verif_hooks::columnar_taken();
